@@ -443,6 +443,7 @@ func (c *consumerGroup) handleError(err error, topic string, partition int32) {
 		return
 	default:
 	}
+	verifPoint("cg.handleError.checked", c, topic, partition)
 
 	select {
 	case c.errors <- err:
